@@ -12,7 +12,7 @@ func init() {
 	run.Register(&run.Check{
 		ID:    "C01",
 		Level: "exploration",
-		Cases: func(tier string) int { return tierN(tier, 960, 18000) },
+		Cases: func(tier string) int { return tierN(tier, 6000, 150000) },
 		Run:   runC01,
 		Rule: "case = (configuration, hostile key universe, sequential history of 80-250 calls) drawn from PRNG(seed,case index); " +
 			"non-trivial iff the run observed >=2 put keys sharing a bucket AND an overwrite or removal of a present key AND (an index or primary file rollover OR a read of a not yet flushed key); " +
